@@ -2,7 +2,7 @@
 _MAIN = {
     "pkg": ".", "hdir": "dastard", "harness": DASTARD_COMMON + ["zz_verif_c14_test.go"], "test": "TestVerifC14",
     "engines": ["vexp"],
-    "quick": T(16, 60), "thorough": T(16, 600),
+    "quick": T(16, 150), "thorough": T(16, 600),
     "env": {"GODEBUG": "asyncpreemptoff=1"},  # fewer signals: dastard's publisher drops a message when zmq_send is interrupted by one
 }
 # part 1: race probe -- the two PUB-socket goroutines convert the same records concurrently in a race-detector build
@@ -10,7 +10,7 @@ _MAIN = {
 _RACE = {
     "pkg": ".", "hdir": "dastard", "harness": DASTARD_COMMON + ["zz_verif_trig_test.go", "zz_verif_c08_test.go", "zz_verif_raceprobe_test.go"], "test": "TestVerifC14Race",
     "engines": ["vexp", "vhook"], "runtime_patch": True, "race": True, "gomaxprocs": 4,
-    "quick": T(16, 60), "thorough": T(16, 300),
+    "quick": T(16, 90), "thorough": T(16, 300),
     "env": {"GODEBUG": "asyncpreemptoff=1"},
 }
 ENTRY = {
